@@ -32,21 +32,24 @@ Section LcdPost.
   Definition item := (T * list (Z * T))%type.                     (* (lat_sum, lat_path) *)
   Definition lt_item : item -> item -> bool := py_tuple_lt (neqb N) (nltb N) eq_pairs (py_list_lt eq_pair lt_pair).
 
-  (* one (s, d) of pairwise(path): state = (d as the loops leave it behind, lat_path, lat_sum) *)
-  Definition step_edge (lat : Z -> Z -> pres T) (off : Z) (sd : Z * Z) (st : option Z * list (Z * T) * T)
-    : pres (option Z * list (Z * T) * T) :=
+  (* one (s, d) of pairwise(path): state = (d as the loops leave it behind, lat_path) *)
+  Definition step_edge (lat : Z -> Z -> pres T) (off : Z) (sd : Z * Z) (st : option Z * list (Z * T))
+    : pres (option Z * list (Z * T)) :=
     w <- lat (fst sd) (snd sd) ;;
-    POk (Some (snd sd), snd (fst st) ++ [(zback off (fst sd), w)], nadd N (snd st) w).
+    POk (Some (snd sd), snd st ++ [(zback off (fst sd), w)]).
+
+  (* lat_sum: `lat_sum = 0.0; for _, lat in lat_path: lat_sum += lat` over the SORTED lat_path (plain left-to-right addition) *)
+  Definition sum_sorted (lp : list (Z * T)) : T := fold_left (fun a il => nadd N a (snd il)) lp (n0 N).
 
   (* one path: state = (d, paths_set, loopcarried_deps) *)
   Definition step_path (lat : Z -> Z -> pres T) (off : Z) (path : list Z) (st : option Z * list (list (Z * T)) * list item)
     : pres (option Z * list (list (Z * T)) * list item) :=
-    r <- py_for (py_pairwise path) (fst (fst st), [], n0 N) (step_edge lat off) ;;
-    d <- py_bound (fst (fst r)) ;;                                  (* `if d >= offset`: UnboundLocalError if no edge was seen yet *)
+    r <- py_for (py_pairwise path) (fst (fst st), []) (step_edge lat off) ;;
+    d <- py_bound (fst r) ;;                                        (* `if d >= offset`: UnboundLocalError if no edge was seen yet *)
     let d' := Some (zback off d) in
-    let lp := py_sort lt_pair (snd (fst r)) in
+    let lp := py_sort lt_pair (snd r) in
     if py_set_mem eq_pairs lp (snd (fst st)) then POk (d', snd (fst st), snd st)
-    else POk (d', py_set_add lp (snd (fst st)), snd st ++ [(snd r, lp)]).
+    else POk (d', py_set_add lp (snd (fst st)), snd st ++ [(sum_sorted lp, lp)]).
 
   (* ---- the dictionary *)
   Definition lcd_key (lp : list (Z * T)) : string := py_join "-" (map (fun il => py_str_Z (fst il)) lp).
